@@ -310,8 +310,13 @@ class C05(PropertyCheck):
                     if specs2 and any(sc.used_of(x) for x in specs2):
                         derived = (specs2, chained(specs2, N, method, perm, shuffle, 0, sch, hist, store, oid, as_circuit, edits))
             else:
-                form = "npint" if rng.random() < 0.12 else "list"
+                u = rng.random()
+                form = "npint" if u < 0.1 else (rng.choice(sc.OBJECT_FORMS) if u < 0.25 else "list")
                 gates = [gate_obj(s) for s in specs] if form == "list" else [sc.make_gate(s, form) for s in specs]
+                fld = None
+                if form in sc.OBJECT_FORMS:          # what the scheduler sees of these objects (their own names)
+                    _, Instruction, _, _, _ = sc._mods()
+                    fld = [sc.ins_fields(Instruction(g)) + (sc.DEN,) for g in gates]
                 log = sc.ShuffleLog(rng) if (shuffle or repeat) else None
                 kw = {"random_shuffle": bool(shuffle)}
                 if repeat:
@@ -327,14 +332,15 @@ class C05(PropertyCheck):
                     # the argument combination return_cycles_list=True with repeat_num > 0, on the same shuffles
                     cyc = sc.impl_schedule(obj, method, perm, sc.ShuffleLog(replay=shuf), cons=cons,
                                            return_cycles_list=True, **kw)
-                r = (st, idx, cyc, shuf, None if form == "list" else form)
+                r = (st, idx, cyc, shuf, None if form == "list" else ("form", form, fld))
             for sp, rr, rep, edited in ((specs, r, repeat, False),) + (((derived[0], derived[1], 0, True),) if derived else ()):
                 cases.append((sp, N, method, perm, shuffle, rep, edited, cons))
                 impl.append(rr)
                 if rep and rr[3] is not None:
                     lines.append(None)            # several model runs, issued below
                 else:
-                    lines.append(sc.model_line(method, perm, [fields_of(x) + (sc.DEN,) for x in sp], rr[3], cons))
+                    fo = rr[4][2] if isinstance(rr[4], tuple) and rr[4][2] else [fields_of(x) + (sc.DEN,) for x in sp]
+                    lines.append(sc.model_line(method, perm, fo, rr[3], cons))
         outs = ctx.driver("drv_sched").run([l for l in lines if l is not None])
         it = iter(outs)
         for (specs, N, method, perm, shuffle, repeat, edited, cons), line, (st, idx, cyc, shuf, hist) in zip(cases, lines, impl):
@@ -345,8 +351,9 @@ class C05(PropertyCheck):
             if cons is not None:
                 inp["constraint_functions"] = cons
             form = "list"
-            if isinstance(hist, str):            # container form of targets / controls of a non-chained case
-                form, hist = hist, None
+            fld_override = None
+            if isinstance(hist, tuple):          # container / object form of the gates of a non-chained case
+                form, fld_override, hist = hist[1], hist[2], None
                 inp["form"] = form
             if hist is not None:
                 inp["calls_before_on_this_scheduler"] = [
@@ -371,7 +378,7 @@ class C05(PropertyCheck):
             if mm:
                 res.disagree(inp, mm[0], mm[1], "used_qubits of an instruction", w)
             if line is None:
-                self._compare_repeat(ctx, res, inp, w, specs, method, perm, repeat, st, idx, shuf, cyc)
+                self._compare_repeat(ctx, res, inp, w, specs, method, perm, repeat, st, idx, shuf, cyc, fld_override)
                 continue
             m = sc.parse_model(next(it))
             if m["status"] != "ok" or st != "ok":
@@ -414,7 +421,7 @@ class C05(PropertyCheck):
             elif m["cycles"] != r:
                 res.disagree(inp, m["cycles"], r, f"cycles list of call {k + 1} (scheduler settings {eff})", w)
 
-    def _compare_repeat(self, ctx, res, inp, w, specs, method, perm, repeat, st, idx, shuf, cyc_call=None):
+    def _compare_repeat(self, ctx, res, inp, w, specs, method, perm, repeat, st, idx, shuf, cyc_call=None, fields=None):
         """repeat_num: the model is run once per repetition on the shuffles that repetition consumed;
         the selection rule of `schedule` (first result with the smallest maximal cycle index) is applied here.
         `cyc_call`: (status, result) of the same call with return_cycles_list=True -- the cycles list of the selected
@@ -423,7 +430,7 @@ class C05(PropertyCheck):
         if st != "ok":
             res.disagree(inp, "ok", st, "verdict (repeat_num)", w)
             return
-        fields = [fields_of(s) + (sc.DEN,) for s in specs]
+        fields = fields or [fields_of(s) + (sc.DEN,) for s in specs]
         rest, best, best_len, best_cyc = list(shuf), [0], 4294967296, None
         drv = ctx.driver("drv_sched")
         for _ in range(repeat):
@@ -898,11 +905,17 @@ class C05(PropertyCheck):
         seqs = self.CTOR_CIRCUITS + [[("CNOT", [1], [0]), ("X", [0], [])], [("X", [0], []), ("CNOT", [1], [0])],
                                      [("CNOT", [1], [0]), ("SNOT", [0], []), ("CNOT", [2], [0])],
                                      [("CZ", [1], [0]), ("RX", [0], []), ("RZ", [1], [])]]
+        # gates of DIFFERENT one-control families sharing a control or a target: as class instances they carry one name
+        seqs += [[("CRX", [1], [0]), ("CRY", [1], [0])], [("CX", [2], [0]), ("CY", [2], [1])], [("CT", [0], [1]), ("CY", [0], [2])],
+                 [("CS", [1], [0]), ("CRZ", [1], [0]), ("CRX", [1], [0])], [("CRY", [2], [0]), ("CZ", [1], [0]), ("CX", [1], [0])],
+                 [("SWAP", [1], [0]), ("SWAP", [2], [0])], [("ISWAP", [0], [1]), ("ISWAP", [0], [2]), ("X", [0], [])]]
         for seq in seqs:
-            for form in sc.FORMS[1:]:
+            for form in sc.FORMS[1:] + sc.OBJECT_FORMS:
                 for m in ("ASAP", "ALAP"):
                     yield {"N": 3, "gates": specs_from(seq), "method": m, "perm": True, "shuf": None, "repeat": 0,
                            "scope": "covered", "form": form, "also_indices": True}
+                yield {"N": 3, "gates": specs_from(seq), "method": "ASAP", "perm": True, "shuf": None, "shuffle_seed": 3,
+                       "repeat": 0, "scope": "covered", "form": form}
 
     def _nontransitive(self):
         """all orders of the triples on which the documented rule is not transitive (+ priority-changing tails)"""
@@ -944,8 +957,8 @@ class C05(PropertyCheck):
             w["cons"] = rng.choice(sc.CONS_LISTS)
         if w["repeat"] and rng.random() < 0.5:
             w["repeat_cycles"] = True
-        if rng.random() < 0.3:
-            w["form"] = rng.choice(sc.FORMS[1:])
+        if rng.random() < 0.35:
+            w["form"] = rng.choice(sc.FORMS[1:] + sc.OBJECT_FORMS)
         return w
 
     def oracle_search(self, ctx, budget_s):
